@@ -207,7 +207,8 @@ def _read_f64(
 @_WRITERS.add(ir.TypeTag.f64)
 def _write_f64(sqw_io: LowLevelSqw, objects: _AnyObjectList) -> None:
     if isinstance(objects, np.ndarray):
-        sqw_io.write_array(objects)
+        # The type tag declares float64 regardless of the dtype of the input.
+        sqw_io.write_array(objects.astype(np.float64, copy=False))
     else:
         for obj in objects:
             f64: ir.F64 = obj  # type: ignore[assignment]
